@@ -1406,14 +1406,26 @@ func cliIndexGuarded(c *Ctx) {
 		k := map[string]int{}
 		allInstrs(fn, func(in ssa.Instruction) {
 			var uses []ssa.Value
+			var base ssa.Value // the sequence that is indexed or sliced: the guarding comparison must measure this very value
 			what := ""
 			switch x := in.(type) {
 			case *ssa.IndexAddr:
-				uses, what = []ssa.Value{x.Index}, "an index"
+				uses, what, base = []ssa.Value{x.Index}, "an index", x.X
 			case *ssa.Index:
-				uses, what = []ssa.Value{x.Index}, "an index"
+				uses, what, base = []ssa.Value{x.Index}, "an index", x.X
 			case *ssa.Slice:
-				uses, what = []ssa.Value{x.Low, x.High}, "a slice bound"
+				uses, what, base = []ssa.Value{x.Low, x.High}, "a slice bound", x.X
+			}
+			// identity modulo representation changes that keep the length (type changes, string<->[]byte conversions)
+			var strip func(v ssa.Value) ssa.Value
+			strip = func(v ssa.Value) ssa.Value {
+				switch y := v.(type) {
+				case *ssa.ChangeType:
+					return strip(y.X)
+				case *ssa.Convert:
+					return strip(y.X)
+				}
+				return v
 			}
 			for _, u := range uses {
 				if u == nil || taint[u] == "" {
@@ -1462,8 +1474,12 @@ func cliIndexGuarded(c *Ctx) {
 								walk(e, depth+1)
 							}
 						case *ssa.Call:
-							if b, ok := x.Call.Value.(*ssa.Builtin); ok && b.Name() == "len" {
-								hasLen = true
+							if b, ok := x.Call.Value.(*ssa.Builtin); ok && b.Name() == "len" && len(x.Call.Args) == 1 {
+								// the length compared with must be the length of the value that is indexed: a length
+								// taken before the sequence was shortened (trimmed, re-sliced) guards nothing
+								if base != nil && strip(x.Call.Args[0]) == strip(base) {
+									hasLen = true
+								}
 							}
 						}
 					}
@@ -1472,7 +1488,7 @@ func cliIndexGuarded(c *Ctx) {
 						guarded = true
 					}
 				}
-				c.check(guarded, key, in.Pos(), what+" derived from "+fld+" is preceded by a comparison of "+fld+" with a length", fnKey(fn)+" uses a value derived from "+fld+" of the reported error as "+what+" without a dominating comparison with a length: a position outside the source makes the CLI panic instead of printing the error")
+				c.check(guarded, key, in.Pos(), what+" derived from "+fld+" is preceded by a comparison of "+fld+" with the length of the very value that is indexed", fnKey(fn)+" uses a value derived from "+fld+" of the reported error as "+what+" without a dominating comparison with a length: a position outside the source makes the CLI panic instead of printing the error")
 			}
 		})
 	}
